@@ -44,6 +44,9 @@ type Unit struct {
 	caseExits []*State
 	unreachable bool
 	wfDone map[string]bool
+	tinvDone map[string]bool
+	loopKeepSets [][]string
+	sepDefs []string
 	casePanicBase int
 	siteN   map[token.Pos]int
 	inlineDepth int
@@ -129,8 +132,57 @@ func (u *Unit) execList(list []ast.Stmt, st *State, f Flow) {
 		return
 	}
 	f2 := f
-	f2.next = func(s *State) { u.execList(list[1:], s, f) }
+	f2.next = func(s *State) {
+		u.ghostAsserts(list[0], s)
+		u.execList(list[1:], s, f)
+	}
 	u.exec(list[0], st, f2)
+}
+
+// ghostAsserts: `assert @K expr` clauses are checked (and then assumed) after the K-th top-level
+// statement of the unit's body (case body for case units). They are proof cuts that guide the solver.
+func (u *Unit) ghostAsserts(done ast.Stmt, st *State) {
+	var body []ast.Stmt
+	var b *Block
+	switch {
+	case u.caseClause != nil:
+		body, b = u.caseClause.Body, u.caseBlock
+	case u.closureLit != nil:
+		body, b = u.closureLit.Body.List, u.block
+	case u.fd != nil:
+		body, b = u.fd.Body.List, u.block
+	}
+	if b == nil {
+		return
+	}
+	k := -1
+	for i, s := range body {
+		if s == done {
+			k = i
+		}
+	}
+	if k < 0 {
+		return
+	}
+	for i, c := range b.clauses("assert") {
+		var at int
+		rest := c.Text
+		if n, _ := fmt.Sscanf(c.Text, "@%d", &at); n != 1 || at != k {
+			continue
+		}
+		rest = strings.TrimSpace(rest[strings.Index(rest, " "):])
+		e := u.specEv(st, done.End())
+		if u.caseEntry != nil && u.caseClause != nil {
+			e.old = u.caseEntry
+		}
+		t := e.evSpec(rest)
+		name := c.Name
+		if name == "" {
+			name = fmt.Sprint(i)
+		}
+		u.addObl(fmt.Sprintf("%s/assert#%s", b.ID(), name), clauseProps(b, c), st, t.S, "ghost assertion after statement "+fmt.Sprint(at)+": "+rest, nil)
+		st.assume(t.S)
+	}
 }
 
 func (u *Unit) fork(st *State, cond string) *State {
@@ -748,7 +800,26 @@ func (u *Unit) havocLoop(e *Ev, n ast.Node) {
 		e.st.vars[v] = old
 	}
 	if heapWrite {
+		u.loopKeepSets = nil
 		names, all := u.loopHeapWrites(e, n)
+		keep := map[string]bool{}
+		if !all && len(u.loopKeepSets) > 0 {
+			// callees that may write everything except a fixed set of heaps: havoc all but the intersection
+			all = true
+			cnt := map[string]int{}
+			for _, ks := range u.loopKeepSets {
+				for _, k := range ks {
+					cnt[k]++
+				}
+			}
+			for k, c := range cnt {
+				if c == len(u.loopKeepSets) {
+					if _, written := names[k]; !written {
+						keep[k] = true
+					}
+				}
+			}
+		}
 		if !all {
 			// make sure the named heaps exist on this path so that they can be havoced
 			for h, srt := range names {
@@ -763,6 +834,9 @@ func (u *Unit) havocLoop(e *Ev, n ast.Node) {
 				continue
 			}
 			if _, ok := names[h]; !all && !ok {
+				continue
+			}
+			if keep[h] {
 				continue
 			}
 			nm := u.g.freshName(h)
@@ -925,6 +999,12 @@ func (u *Unit) loopHeapWrites(e *Ev, n ast.Node) (map[string]string, bool) {
 			for _, c := range b.clauses("modifies") {
 				for _, item := range splitTopSpaces(c.Text) {
 					switch {
+					case strings.HasPrefix(item, "allbut("):
+						var ks []string
+						for _, k := range strings.Split(item[7:len(item)-1], ",") {
+							ks = append(ks, strings.TrimSpace(k))
+						}
+						u.loopKeepSets = append(u.loopKeepSets, ks)
 					case item == "*":
 						all = true
 					case strings.HasPrefix(item, "elems(") || strings.HasPrefix(item, "fields("):
@@ -964,6 +1044,9 @@ func (u *Unit) checkInvariants(lb *Block, st *State, pos token.Pos, what string,
 	}
 	for i, c := range lb.clauses("invariant") {
 		e := u.specEv(st, pos)
+		if lb.Case != "" && u.caseEntry != nil {
+			e.old = u.caseEntry
+		}
 		t := e.evSpec(c.Text)
 		name := c.Name
 		if name == "" {
@@ -979,6 +1062,9 @@ func (u *Unit) assumeInvariants(lb *Block, st *State, pos token.Pos) {
 	}
 	for _, c := range lb.clauses("invariant") {
 		e := u.specEv(st, pos)
+		if lb.Case != "" && u.caseEntry != nil {
+			e.old = u.caseEntry
+		}
 		t := e.evSpec(c.Text)
 		st.assume(t.S)
 	}
@@ -1323,4 +1409,43 @@ func (u *Unit) checkLoopFrame(lb *Block, st *State) {
 		return
 	}
 	u.addObl(u.loopOblName(lb, "preserve#frame"), u.props, st, smtAnd(fs...), "implicit invariant: objects outside the modifies clause unchanged", nil)
+}
+
+// notInHeaps states that no reference stored in any heap of the current state satisfies pred
+// (pred is an SMT predicate name, or "= r" style via eqTo). Used at allocation time: a newly
+// allocated object cannot already be referenced from the heap.
+func (e *Ev) notInHeaps(pred func(c string) string) {
+	g := e.g()
+	for _, h := range sortedHeapNames(e.st.heaps) {
+		t := e.st.heaps[h]
+		if strings.HasPrefix(h, "G$") || strings.HasPrefix(h, "M$") {
+			continue
+		}
+		inner := ""
+		two := false
+		if strings.HasPrefix(t.Sort, "(Array Int (Array Int ") {
+			inner = strings.TrimSuffix(strings.TrimPrefix(t.Sort, "(Array Int (Array Int "), "))")
+			two = true
+		} else if strings.HasPrefix(t.Sort, "(Array Int ") {
+			inner = strings.TrimSuffix(strings.TrimPrefix(t.Sort, "(Array Int "), ")")
+		} else {
+			continue
+		}
+		gt, ok := g.sortGoType[inner]
+		if !ok {
+			continue
+		}
+		if init, ok := e.u.inits[h]; ok && init.S == t.S {
+			continue // initial heap: covered by the non-freshness axioms
+		}
+		sel := fmt.Sprintf("(select %s a)", t.S)
+		binder := "(a Int)"
+		if two {
+			sel = fmt.Sprintf("(select (select %s a) i)", t.S)
+			binder = "(a Int) (i Int)"
+		}
+		for _, c := range g.refComponents(sel, gt, e.bv, 0) {
+			e.u.sepDefs = append(e.u.sepDefs, fmt.Sprintf("(forall (%s) (! %s :pattern (%s)))", binder, pred(c), c))
+		}
+	}
 }
